@@ -368,6 +368,9 @@ class SFTPFile(BufferedFile):
         )
         # data still sitting in the write buffer was written before this call
         self.flush()
+        # ... and data read ahead of the caller may not exist afterwards
+        self._rbuffer = bytes()
+        self._realpos = self._pos
         attr = SFTPAttributes()
         attr.st_size = size
         self.sftp._request(CMD_FSETSTAT, self.handle, attr)
